@@ -1,5 +1,329 @@
 import BiotiteModel.Proofs.C14
 import BiotiteModel.Gen.C14
+/-!
+# C14 — property theorems (cell-list neighbour search is exact)
+
+Model: `Model/C14.lean` (ℚ arithmetic; float32 rounding is the *partial* label).  All theorems
+quantify over every coordinate list, cell size, query point, radius and selection.
+`mk … = some (.ok c)` means "`CellList(coords, cs, …)` was constructed".
+-/
 namespace BiotiteModel.C14
-theorem C14_stub : True := trivial
+
+/-! ## window sufficiency -/
+
+/-- One axis, C truncation (`<int>`), **any** query point `q` (also left of / beyond the grid):
+an atom at `a ≥ min` with `|a - q| ≤ r` has a cell index within `ceil(r/cs)` of the query's.
+This is where truncation-toward-zero (instead of floor) matters: it holds because all atoms
+have index `≥ 0`. -/
+theorem C14_window_sufficient (mn cs a q r : Rat) (hcs : 0 < cs) (ha : mn ≤ a)
+    (h1 : a - q ≤ r) (h2 : q - a ≤ r) :
+    cellIdx1 mn cs a - cellIdx1 mn cs q ≤ (r / cs).ceil ∧
+    cellIdx1 mn cs q - cellIdx1 mn cs a ≤ (r / cs).ceil :=
+  window1 mn cs a q r hcs ha h1 h2
+
+-- non-vacuity: a query left of the origin cell truncates to cell 0, not -1
+example : cellIdx1 0 4 (-3) = 0 ∧ cellIdx1 0 4 7 = 1 ∧ ((4 : Rat) / 4).ceil = 1 := by decide +kernel
+
+/-- Three axes, on a constructed cell list: every atom within Chebyshev distance `r` of any
+query point lies in a cell that the window scan visits (inside the window *and* inside the grid). -/
+theorem C14_window_sufficient_3d (coords : List V3) (cs : Rat) (box : Option V3)
+    (sel : Option (List Bool)) (c : CL) (h : mk coords cs box sel = some (.ok c))
+    (p : V3) (hp : p ∈ c.coord) (q : V3) (r : Rat) (hn : near q p r) :
+    CL.inWindow (c.cellOf q) (c.cellOf p) (c.cellRadius r) = true ∧
+    CL.inGrid c.dims (c.cellOf p) = true :=
+  have hwf := (mk_ok coords cs box sel c h).1
+  ⟨inWindow_of_near c hwf p hp q r hn, inGrid_of_wf c hwf p hp⟩
+
+/-- Index invariant behind the unchecked pointer-cell accesses: every binned coordinate
+(incl. periodic copies) has `0 ≤ cell index < cell_count` on every axis. -/
+theorem C14_cells_in_grid (coords : List V3) (cs : Rat) (box : Option V3)
+    (sel : Option (List Bool)) (c : CL) (h : mk coords cs box sel = some (.ok c))
+    (p : V3) (hp : p ∈ c.coord) : CL.inGrid c.dims (c.cellOf p) = true :=
+  inGrid_of_wf c (mk_ok coords cs box sel c h).1 p hp
+
+/-- The literal three-level window scan with clipping returns exactly the selected atoms whose
+cell is in the window and in the grid. -/
+theorem C14_scan_characterised (c : CL) (q : V3) (cr : Int) (pt : V3 × Nat) :
+    pt ∈ c.scan q cr ↔ pt ∈ c.coord.zipIdx ∧ c.selected pt.2 = true ∧
+      CL.inGrid c.dims (c.cellOf pt.1) = true ∧ CL.inWindow (c.cellOf q) (c.cellOf pt.1) cr = true := by
+  rw [mem_scan_iff, mem_scanFast]
+
+/-! ## exactness (non-periodic) -/
+
+theorem selected_of_lt (c : CL) (t : Nat) (ht : t < c.n) :
+    c.selected t = true ↔ c.sel[t]? = some true := by
+  simp [CL.selected, Nat.mod_eq_of_lt ht]
+
+/-- `get_atoms(q, r)` returns exactly the selected atoms with `dist² ≤ r²` — for every query
+point, radius `≥ 0` (also `0` and `> extent`), selection or none. -/
+theorem C14_exact (coords : List V3) (cs : Rat) (sel : Option (List Bool)) (c : CL)
+    (h : mk coords cs none sel = some (.ok c)) (q : V3) (r : Rat) (hr : 0 ≤ r) (t : Nat) :
+    t ∈ c.atomsOne q r ↔
+      ∃ p, coords[t]? = some p ∧ (selMask sel coords.length)[t]? = some true ∧ sqDist q p ≤ r * r := by
+  obtain ⟨hwf, hcoord, hn, hbox, -, -, -, hsel⟩ := mk_ok coords cs none sel c h
+  rw [atomsOne_eq]
+  simp only [CL.post, CL.prepQ, hbox]
+  rw [mem_rawAtoms c hwf q r hr t, hcoord]
+  simp only [allCoords]
+  constructor
+  · rintro ⟨p, hp, hs, hd⟩
+    have ht : t < c.n := by rw [hn]; exact (List.getElem?_eq_some_iff.mp hp).1
+    exact ⟨p, hp, by rw [← hsel]; exact (selected_of_lt c t ht).mp hs, hd⟩
+  · rintro ⟨p, hp, hs, hd⟩
+    have ht : t < c.n := by rw [hn]; exact (List.getElem?_eq_some_iff.mp hp).1
+    exact ⟨p, hp, (selected_of_lt c t ht).mpr (by rw [hsel]; exact hs), hd⟩
+
+/-- masks ⇔ indices: the mask row is `true` exactly at the returned indices. -/
+theorem C14_exact_mask (coords : List V3) (cs : Rat) (sel : Option (List Bool)) (c : CL)
+    (h : mk coords cs none sel = some (.ok c)) (q : V3) (r : Rat) (hr : 0 ≤ r) (t : Nat) :
+    (c.asMask (c.atomsOne q r))[t]? = some true ↔ t ∈ c.atomsOne q r := by
+  rw [mem_asMask]
+  constructor
+  · exact fun h => h.2
+  · intro ht
+    refine ⟨?_, ht⟩
+    obtain ⟨p, hp, -, -⟩ := (C14_exact coords cs sel c h q r hr t).mp ht
+    rw [(mk_ok coords cs none sel c h).2.2.1]
+    exact (List.getElem?_eq_some_iff.mp hp).1
+
+/-- Batches: whenever the batch call answers, row `i` is the exact set for query `i` with its
+radius (scalar or per-query). -/
+theorem C14_exact_batch (coords : List V3) (cs : Rat) (sel : Option (List Bool)) (c : CL)
+    (h : mk coords cs none sel = some (.ok c)) (qs : List V3) (rad : Rad Rat) (rows : List (List Nat))
+    (hb : c.atomsBatch qs rad = some (.ok rows)) :
+    rows.length = min qs.length (rad.expand qs.length).length ∧
+    ∀ (i : Nat) (q : V3) (r : Rat) (row : List Nat), qs[i]? = some q → (rad.expand qs.length)[i]? = some r → rows[i]? = some row →
+      ∀ t, t ∈ row ↔ ∃ p, coords[t]? = some p ∧ (selMask sel coords.length)[t]? = some true ∧
+        sqDist q p ≤ r * r := by
+  have hrows := atomsBatch_rows c qs rad rows hb
+  constructor
+  · rw [hrows]; simp
+  · intro i q r row hq hr hrow t
+    have hne : qs ≠ [] := by intro h0; subst h0; simp at hq
+    have hnn := atomsBatch_nonneg c qs rad rows hne hb r (List.mem_of_getElem? hr)
+    rw [hrows] at hrow
+    simp only [List.getElem?_map, List.getElem?_zip_eq_some, Option.map_eq_some_iff] at hrow
+    obtain ⟨⟨q', r'⟩, ⟨hq', hr'⟩, rfl⟩ := hrow
+    rw [hq] at hq'; rw [hr] at hr'
+    have e1 := Option.some.inj hq'; have e2 := Option.some.inj hr'
+    subst e1; subst e2
+    exact C14_exact coords cs sel c h q r hnn t
+
+/-- The batch call answers whenever the radii are valid and the C `int` result-buffer length does
+not overflow (`Guard.fits`; otherwise see `C14_overflow_defect`). -/
+theorem C14_batch_defined (c : CL) (qs : List V3) (rad : Rad Rat) (hq : qs ≠ [])
+    (hchk : rad.check qs.length (fun r => decide (r < 0)) = .ok ())
+    (hsmall : ∀ r ∈ rad.expand qs.length, c.cellRadius r < 2 ^ 31)
+    (hfit : c.guard (maxRadius ((rad.expand qs.length).map c.cellRadius)) = .fits) :
+    c.atomsBatch qs rad =
+      some (.ok ((qs.zip (rad.expand qs.length)).map fun qr => c.atomsOne qr.1 qr.2)) :=
+  atomsBatch_ok c qs rad hq hchk hsmall hfit
+
+/-- scalar ⇔ per-query radii. -/
+theorem C14_scalar_iff_multi (c : CL) (qs : List V3) (r : Rat) :
+    c.atomsBatch qs (.scalar r) = c.atomsBatch qs (.multi (List.replicate qs.length r)) :=
+  scalar_eq_multi c qs r
+
+/-- Known defect (kept visible): with 5 atoms, cell size 1 and radius 700 — the documented
+"radius larger than the extent" use — `(2*700+1)**3 * 1` does not fit a C `int`, wraps negative
+and the query fails with `ValueError` instead of returning the atoms. -/
+theorem C14_overflow_defect :
+    ∃ c, mk [⟨0,0,0⟩, ⟨1,0,0⟩, ⟨2,0,0⟩, ⟨3,0,0⟩, ⟨4,0,0⟩] 1 none none = some (.ok c) ∧
+      c.atomsBatch [⟨0,0,0⟩] (.scalar 700) = some (.error .valueError) :=
+  ⟨_, rfl, by decide +kernel⟩
+
+/-! ## cell queries -/
+
+/-- `get_atoms_in_cells(q, R)` contains every selected atom within Chebyshev distance `R·cs`
+of the query point (any query point, any `R`). -/
+theorem C14_cells_superset (coords : List V3) (cs : Rat) (sel : Option (List Bool)) (c : CL)
+    (h : mk coords cs none sel = some (.ok c)) (q : V3) (R : Int) (t : Nat) (p : V3)
+    (hp : coords[t]? = some p) (hs : (selMask sel coords.length)[t]? = some true)
+    (hn : near q p (R * cs)) : t ∈ c.cellsOne q R := by
+  obtain ⟨hwf, hcoord, hn', hbox, hcs, -, -, hsel⟩ := mk_ok coords cs none sel c h
+  have ht : t < c.n := by rw [hn']; exact (List.getElem?_eq_some_iff.mp hp).1
+  show t ∈ c.post ((c.scan (c.prepQ q) R).map (·.2))
+  simp only [CL.post, CL.prepQ, hbox]
+  apply mem_rawCells c hwf q R t p
+  · rw [hcoord]; exact hp
+  · exact (selected_of_lt c t ht).mpr (by rw [hsel]; exact hs)
+  · rw [hcs]; exact hn
+
+/-- … and nothing but selected atoms of the array. -/
+theorem C14_cells_sound (coords : List V3) (cs : Rat) (sel : Option (List Bool)) (c : CL)
+    (h : mk coords cs none sel = some (.ok c)) (q : V3) (R : Int) (t : Nat)
+    (ht : t ∈ c.cellsOne q R) :
+    t < coords.length ∧ (selMask sel coords.length)[t]? = some true := by
+  obtain ⟨hwf, hcoord, hn', hbox, hcs, -, -, hsel⟩ := mk_ok coords cs none sel c h
+  have ht' : t ∈ c.post ((c.scan (c.prepQ q) R).map (·.2)) := ht
+  simp only [CL.post, CL.prepQ, hbox] at ht'
+  obtain ⟨p, hp, hs⟩ := mem_rawCells_sound c q R t ht'
+  rw [hcoord] at hp
+  have hlt : t < coords.length := (List.getElem?_eq_some_iff.mp hp).1
+  exact ⟨hlt, by rw [← hsel]; exact (selected_of_lt c t (by rw [hn']; exact hlt)).mp hs⟩
+
+/-! ## adjacency matrix -/
+
+/-- `create_adjacency_matrix(thr)`: one row per atom; entry `(i,j)` is set iff both atoms are
+selected and `dist² ≤ thr²`, i.e. the matrix equals the thresholded pairwise distance matrix. -/
+theorem C14_adjacency_eq (coords : List V3) (cs : Rat) (sel : Option (List Bool)) (c : CL)
+    (h : mk coords cs none sel = some (.ok c)) (thr : Rat) (rows : List (List Nat))
+    (ha : c.adjacency thr = some (.ok rows)) :
+    rows.length = coords.length ∧
+    ∀ (i : Nat) (row : List Nat) (pi : V3), rows[i]? = some row → coords[i]? = some pi → ∀ j : Nat,
+      j ∈ row ↔ ∃ pj, coords[j]? = some pj ∧ (selMask sel coords.length)[i]? = some true ∧
+        (selMask sel coords.length)[j]? = some true ∧ sqDist pi pj ≤ thr * thr := by
+  obtain ⟨hwf, hcoord, hn, hbox, hcs, hselerr, -, hsel⟩ := mk_ok coords cs none sel c h
+  have hlen : (selMask sel coords.length).length = coords.length := by
+    unfold selError at hselerr
+    cases sel with
+    | none => simp [selMask]
+    | some s =>
+      simp only [selMask]
+      by_contra hc
+      simp [hc] at hselerr
+  unfold CL.adjacency CL.adjacencyWith at ha
+  split at ha
+  · simp at ha
+  · rename_i hthr
+    have hthr' : 0 ≤ thr := not_lt.mp hthr
+    simp only at ha
+    split at ha
+    · rename_i rows0 hb
+      simp only [Option.some.injEq, Except.ok.injEq] at ha
+      have hrows0 := atomsBatch_rows c _ _ rows0 hb
+      simp only [Rad.expand] at hrows0
+      rw [zip_replicate_map (fun q r => c.atomsOne q r)] at hrows0
+      have hbase : List.take c.n c.coord = coords := by
+        rw [hcoord, hn]; simp [allCoords]
+      rw [hbase, hsel] at hrows0
+      rw [hrows0, hsel, scatter_spec (fun q => c.atomsOne q thr) _ _ hlen.symm] at ha
+      subst ha
+      constructor
+      · simp [hlen]
+      · intro i row pi hrow hpi j
+        simp only [List.getElem?_map, List.getElem?_zip_eq_some, Option.map_eq_some_iff] at hrow
+        obtain ⟨⟨p', b⟩, ⟨hp', hb'⟩, rfl⟩ := hrow
+        rw [hpi] at hp'
+        have e1 := Option.some.inj hp'; subst e1
+        cases b with
+        | false =>
+          simp only [Bool.false_eq_true, if_false, List.not_mem_nil, false_iff]
+          rintro ⟨pj, -, hsi, -⟩
+          rw [hb'] at hsi; simp at hsi
+        | true =>
+          simp only [if_true]
+          rw [C14_exact coords cs sel c h pi thr hthr' j]
+          constructor
+          · rintro ⟨pj, hpj, hsj, hd⟩; exact ⟨pj, hpj, hb', hsj, hd⟩
+          · rintro ⟨pj, hpj, -, hsj, hd⟩; exact ⟨pj, hpj, hsj, hd⟩
+    · rename_i hne
+      cases hr : c.atomsBatchWith CL.scan _ (Rad.scalar thr) with
+      | none => rw [hr] at ha; simp at ha
+      | some e =>
+        cases e with
+        | error e => rw [hr] at ha; simp at ha
+        | ok r0 => exact absurd hr (hne r0)
+
+theorem sqDist_comm (a b : V3) : sqDist a b = sqDist b a := by
+  unfold sqDist; ring
+
+/-- The adjacency matrix is symmetric. -/
+theorem C14_adjacency_symm (coords : List V3) (cs : Rat) (sel : Option (List Bool)) (c : CL)
+    (h : mk coords cs none sel = some (.ok c)) (thr : Rat) (rows : List (List Nat))
+    (ha : c.adjacency thr = some (.ok rows)) (i j : Nat) (ri rj : List Nat)
+    (hi : rows[i]? = some ri) (hj : rows[j]? = some rj) : j ∈ ri ↔ i ∈ rj := by
+  obtain ⟨hlen, hspec⟩ := C14_adjacency_eq coords cs sel c h thr rows ha
+  have hil : i < coords.length := by rw [← hlen]; exact (List.getElem?_eq_some_iff.mp hi).1
+  have hjl : j < coords.length := by rw [← hlen]; exact (List.getElem?_eq_some_iff.mp hj).1
+  have hpi : coords[i]? = some coords[i] := List.getElem?_eq_getElem hil
+  have hpj : coords[j]? = some coords[j] := List.getElem?_eq_getElem hjl
+  rw [hspec i ri _ hi hpi j, hspec j rj _ hj hpj i]
+  constructor
+  · rintro ⟨p, hp, hsi, hsj, hd⟩
+    rw [hpj] at hp; cases hp
+    exact ⟨_, hpi, hsj, hsi, by rw [sqDist_comm]; exact hd⟩
+  · rintro ⟨p, hp, hsj, hsi, hd⟩
+    rw [hpi] at hp; cases hp
+    exact ⟨_, hpj, hsi, hsj, by rw [sqDist_comm]; exact hd⟩
+
+/-! ## periodic (orthorhombic) — partial
+
+Full statement aimed at (NOT proved as one theorem; see notes/C14.md):
+`t ∈ get_atoms(q, r) ↔ sel t ∧ ∃ n ∈ ℤ³, |coords[t] + n∘L − q|² ≤ r²` (minimum-image distance).
+Proved pieces: (a) exactness over the moved-inside + 27-fold replicated coordinate array with
+`index % n` (`C14_periodic_exact_partial`), (b) moving inside the box changes a coordinate by a
+lattice vector and lands in `[0, L)` (`C14_wrap_lattice`), (c) for two points inside the box the
+nearest image along each axis is among the shifts `-1, 0, 1` (`C14_min_image_1d`).  The remaining
+gap is list-index bookkeeping (`position = image * n + atom`), covered by the exact periodic
+correspondence stream only. -/
+
+theorem C14_periodic_exact_partial (coords : List V3) (cs : Rat) (b : V3) (sel : Option (List Bool)) (c : CL)
+    (h : mk coords cs (some b) sel = some (.ok c)) (q : V3) (r : Rat) (hr : 0 ≤ r) (t : Nat) :
+    t ∈ c.atomsOne q r ↔
+      ∃ t' p', (replicate b (coords.map (wrapV b)))[t']? = some p' ∧ t' % coords.length = t ∧
+        (selMask sel coords.length)[t' % coords.length]? = some true ∧
+        sqDist (wrapV b q) p' ≤ r * r := by
+  obtain ⟨hwf, hcoord, hn, hbox, -, -, -, hsel⟩ := mk_ok coords cs (some b) sel c h
+  rw [atomsOne_eq]
+  simp only [CL.post, CL.prepQ, hbox, List.mem_map]
+  constructor
+  · rintro ⟨t', ht', rfl⟩
+    obtain ⟨p', hp', hs, hd⟩ := (mem_rawAtoms c hwf (wrapV b q) r hr t').mp ht'
+    refine ⟨t', p', by rw [hcoord] at hp'; exact hp', by rw [hn], ?_, hd⟩
+    rw [← hsel, ← hn]
+    simpa [CL.selected] using hs
+  · rintro ⟨t', p', hp', rfl, hs, hd⟩
+    refine ⟨t', (mem_rawAtoms c hwf (wrapV b q) r hr t').mpr ⟨p', by rw [hcoord]; exact hp', ?_, hd⟩, by rw [hn]⟩
+    rw [← hsel, ← hn] at hs
+    simpa [CL.selected] using hs
+
+/-- `move_inside_box` (one axis): the result lies in `[0, L)` and differs from the input by an
+integer multiple of the box length. -/
+theorem C14_wrap_lattice (L x : Rat) (hL : 0 < L) :
+    0 ≤ wrap1 L x ∧ wrap1 L x < L ∧ wrap1 L x = x - ((x / L).floor : Int) * L :=
+  ⟨(wrap1_range L x hL).1, (wrap1_range L x hL).2, wrap1_eq L x hL⟩
+
+/-- With both points inside the box (`-L < d < L`), no lattice shift `m` beats the best of the
+three shifts `-1, 0, 1` that `repeat_box_coord` provides: the minimum image is among the 27 replicas. -/
+theorem C14_min_image_1d (L d : Rat) (hL : 0 < L) (h1 : -L < d) (h2 : d < L) (m : Int) :
+    ∃ s : Int, (s = -1 ∨ s = 0 ∨ s = 1) ∧ (d + s * L) * (d + s * L) ≤ (d + m * L) * (d + m * L) :=
+  min_image_1d L d hL h1 h2 m
+
+example : wrap1 8 (-1) = 7 ∧ wrap1 8 16 = 0 := by decide +kernel
+
+/-! ## non-vacuity: the hypotheses are satisfiable and the model computes the expected sets -/
+
+-- query left of the grid (cell index truncates to 0), radius = cell size: atom 0 at distance 3 is found
+example : ∃ c, mk [⟨0,0,0⟩, ⟨7,0,0⟩] 4 none none = some (.ok c) ∧
+    c.atomsOne ⟨-3,0,0⟩ 4 = [0] ∧ c.atomsOne ⟨-5,0,0⟩ 4 = [] ∧ c.cellsOne ⟨-5,0,0⟩ 1 = [0] ∧ c.cellsOne ⟨-5,0,0⟩ 2 = [0, 1] ∧
+    c.atomsBatch [⟨-3,0,0⟩, ⟨7,0,0⟩] (.multi [4, 0]) = some (.ok [[0], [1]]) :=
+  ⟨_, rfl, by decide +kernel, by decide +kernel, by decide +kernel, by decide +kernel, by decide +kernel⟩
+
+-- selection: unselected atoms are never returned; adjacency rows of unselected atoms are empty
+example : ∃ c, mk [⟨0,0,0⟩, ⟨1,0,0⟩, ⟨2,0,0⟩, ⟨3,0,0⟩] 2 none (some [true, false, true, false]) = some (.ok c) ∧
+    c.atomsOne ⟨1,0,0⟩ 5 = [0, 2] ∧ c.adjacency 2 = some (.ok [[0, 2], [], [0, 2], []]) :=
+  ⟨_, rfl, by decide +kernel, by decide +kernel⟩
+
+-- periodic: the neighbour through the box face is found, and reported under its original index
+example : ∃ c, mk [⟨0,0,0⟩, ⟨7,0,0⟩, ⟨4,4,4⟩] 2 (some ⟨8,8,8⟩) none = some (.ok c) ∧
+    c.atomsOne ⟨0,0,0⟩ 1 = [1, 0] ∧ c.atomsOne ⟨16,8,-8⟩ 1 = [1, 0] ∧ c.coord.length = 81 :=
+  ⟨_, rfl, by decide +kernel, by decide +kernel, by decide +kernel⟩
+
+/-! ## obligations on the tables regenerated from `celllist.pyx` / `box.py` (`Gen/C14.lean`) -/
+
+/-- The window loops are `range(i - cell_r, i + cell_r + 1)` clipped by `adj >= 0 and adj < shape[axis]`
+on the matching axis — the bounds `CL.scan` uses. -/
+theorem C14_gen_window : Gen.C14.window =
+    [⟨-1, 0, 1, 1, true, 0, true, 0⟩, ⟨-1, 0, 1, 1, true, 0, true, 1⟩, ⟨-1, 0, 1, 1, true, 0, true, 2⟩] := by
+  decide
+
+/-- `_get_cell_index` pairs x/y/z with `_min_coord[0/1/2]`; the filter is `sq_dist <= sq_radius`;
+`cell_count` adds 1; the buffer length is `(2r+1)**3 * max_cell_length`; 3 images per axis. -/
+theorem C14_gen_constants :
+    Gen.C14.cellIndex = [("i", "x", 0), ("j", "y", 1), ("k", "z", 2)] ∧ Gen.C14.distCmp = "<=" ∧
+    Gen.C14.cellCountPlus = 1 ∧ Gen.C14.bufLen = (2, 1, 3) ∧ Gen.C14.repeatAmount = 1 ∧
+    shifts.length = (2 * Gen.C14.repeatAmount + 1) ^ 3 := by
+  decide
+
 end BiotiteModel.C14
